@@ -19,6 +19,9 @@ for pid in props:
     except Exception as e:  # not built yet
         na.append({'property_id': pid, 'reason': 'check not built yet in this round (planned in DESIGN.md section 4); not a claim that proof is inapplicable'})
         continue
+    addenda = json.load(open(os.path.join(V, 'tools', 'level_addenda.json'))) if os.path.exists(os.path.join(V, 'tools', 'level_addenda.json')) else {}
+    if pid in addenda and addenda[pid].strip()[:40] not in meta['level_text']:
+        meta = dict(meta, level_text=meta['level_text'] + addenda[pid])
     checks.append({
         'property_id': pid,
         'quick_cmd': './check %s --tier quick' % pid,
